@@ -36,5 +36,6 @@ TokInv == k > 0 => \A j \in 1..Len(Texts[k].t) : Classify(Texts[k].t[j]) # "BAD"
 
 EmitInv == k > 0 => LET f == Fin(k) IN
              PrintT(<<"OUT", ToJson([id |-> Texts[k].id, acc |-> Accepting(f),
-                                     val |-> IF Accepting(f) THEN FinalValue(f) ELSE NoVal])>>)
+                                     val |-> IF Accepting(f) THEN FinalValue(f) ELSE NoVal,
+                                     rev |-> IF Accepting(f) THEN ReviverCalls(FinalValue(f)) ELSE <<>>])>>)
 =============================================================================
